@@ -73,6 +73,11 @@ def gen_sleep_history(rng, with_faults: bool, versions=("2.0", "2.1", "2.2", "2.
         elif x < 0.93:
             # the node asks for its state (typically right after waking, before its wake signal)
             ops.append(("recv", f"{rng.choice(nodes)};{rng.choice([0, 1])};2;0;{rng.choice([2, 3])};", ()))
+        elif x < 0.95 and v != "1.5":
+            # the gateway reports its version again (a restart of the gateway, a firmware of the same
+            # wake-signal family): parked commands must survive a change of the active protocol
+            nv = rng.choice(["2.0", "2.1", "2.1.1", "2.0.0"]) if v in ("2.0", "2.1") else rng.choice(["2.2", "2.2.1", "2.3.2"])
+            ops.append(("recv", f"0;255;3;0;2;{nv}", ()))
         else:
             ops.append(("recv", gen_line(rng, pr)[1], ()))
     if with_faults:
